@@ -46,6 +46,35 @@ def obligations(tier, seed):
             obs.append(Ob(id='C19.arith.%s' % tag, prop='C19', group='C19.%s' % tag, prelude=inc, wrappers=[wa, wb, wc, wz, wasg, wt], inputs=[(ct, 'x')], body=body, fp=fp,
                           contract='forall x:%s: q + ZERO == ZERO + q == q - ZERO == q; Quantity(ZERO).in(u) == 0; T(ZERO) == 0; no UB:*' % ct,
                           functions_under_contract=('au::Quantity::Quantity(Zero)', 'au::operator+/-(Quantity, QLike) with Zero', 'au::Zero::operator T')))
+    # a user-defined rep whose default-constructed state is NOT its zero: ZERO must still mean 0
+    VREP = '''#include "au/units/meters.hh"
+//--
+struct VRep19 {
+    int32_t v;
+    constexpr VRep19() : v(41) {}
+    constexpr VRep19(int x) : v(x) {}
+    friend constexpr bool operator==(VRep19 a, VRep19 b) { return a.v == b.v; }
+    friend constexpr bool operator!=(VRep19 a, VRep19 b) { return a.v != b.v; }
+    friend constexpr bool operator<(VRep19 a, VRep19 b) { return a.v < b.v; }
+    friend constexpr bool operator<=(VRep19 a, VRep19 b) { return a.v <= b.v; }
+    friend constexpr bool operator>(VRep19 a, VRep19 b) { return a.v > b.v; }
+    friend constexpr bool operator>=(VRep19 a, VRep19 b) { return a.v >= b.v; }
+    friend constexpr VRep19 operator+(VRep19 a, VRep19 b) { return VRep19{(int)((unsigned)a.v + (unsigned)b.v)}; }
+    friend constexpr VRep19 operator-(VRep19 a, VRep19 b) { return VRep19{(int)((unsigned)a.v - (unsigned)b.v)}; }
+};'''
+    mkv = 'au::make_quantity<au::Meters>(VRep19{x})'
+    wv0 = Wrapper('w_vrep_fromzero', 'int32_t', [], 'au::Quantity<au::Meters, VRep19> q = au::ZERO; return q.data_in(au::Meters{}).v;')
+    wv1 = Wrapper('w_vrep_ctor', 'int32_t', [], 'au::Quantity<au::Meters, VRep19> q{au::ZERO}; return q.data_in(au::Meters{}).v;')
+    wv2 = Wrapper('w_vrep_lt', 'bool', [('int32_t', 'x')], 'return %s < au::ZERO;' % mkv)
+    wv3 = Wrapper('w_vrep_eq', 'bool', [('int32_t', 'x')], 'return au::ZERO == %s;' % mkv)
+    wv4 = Wrapper('w_vrep_plus', 'int32_t', [('int32_t', 'x')], 'return (%s + au::ZERO).in(au::Meters{}).v;' % mkv)
+    body = '''
+  CHECK(w_vrep_fromzero() == 0, "Quantity-initialised-from-ZERO-holds-0-not-the-default-state");
+  CHECK(w_vrep_ctor() == 0, "Quantity-constructed-from-ZERO-holds-0-not-the-default-state");
+'''
+    obs.append(Ob(id='C19.custom-rep', prop='C19', group='C19.vrep', prelude=VREP, wrappers=[wv0, wv1], inputs=[], body=body,
+                  contract='user-defined rep whose default-constructed value is 41: a Quantity initialised / constructed from ZERO holds 0, not the default state',
+                  functions_under_contract=('au::Quantity::Quantity(Zero)',)))
     # chrono durations
     for (crep, rep) in (('int64_t', 'i64'), ('double', 'f64')):
         w = Wrapper('w_zero_duration_' + rep, crep, [], 'std::chrono::duration<%s, std::milli> d = au::ZERO; return d.count();' % crep)
